@@ -42,5 +42,6 @@ NormKeepsRatios == (Cardinality(DOMAIN vals) > 1 /\ total # QZero) =>
 NormZeroSumAllZero == (Cardinality(DOMAIN vals) > 1 /\ total = QZero) => \A k \in DOMAIN vals : norm[k] = QZero
 NormSingleKeyRaw == Cardinality(DOMAIN vals) <= 1 => norm = vals
 Emit == PrintT(ToJson([kind |-> kind, upds |-> [i \in 1..Len(upds) |-> [k \in DOMAIN upds[i] |-> upds[i][k]]],
-                       get |-> vals, norm |-> norm, n |-> m.n]))
+                       get |-> vals, norm |-> norm, n |-> m.n,
+                       since |-> [k \in DOMAIN since |-> [i \in 1..Len(since[k]) |-> since[k][i][1]]]]))
 ===============================================================================
